@@ -74,3 +74,11 @@ M("c15-thread-token-overrides-explicit-token", "C15", FT, "_token_or_error",
 N("c15-n-token-or-error-single-exit", "C15", FT, "_token_or_error",
   "    if token is not None:\n        return token\n\n    try:\n        return threadlocals.current_token\n    except AttributeError:",
   "    if token is None:\n        try:\n            token = threadlocals.current_token\n        except AttributeError:\n            token = None\n\n    if token is not None:\n        return token\n\n    try:\n        raise AttributeError\n    except AttributeError:")
+
+# from seeded changes C15/g, C15/h (round 4)
+MM("c15-provider-shutdown-under-lock", "C15", [(FT, "BlockingPortalProvider.__exit__",
+  "                del self._portal\n\n        if portal_cm:\n            portal_cm.__exit__(None, None, None)",
+  "                del self._portal\n                portal_cm.__exit__(None, None, None)")], ["R15-g"])
+M("c15-provider-forgets-portal-after-shutdown", "C15", FT, "BlockingPortalProvider.__exit__",
+  "                portal_cm = self._portal_cm\n                self._portal_cm = None\n                del self._portal\n\n        if portal_cm:\n            portal_cm.__exit__(None, None, None)",
+  "                portal_cm = self._portal_cm\n\n        if portal_cm:\n            try:\n                portal_cm.__exit__(None, None, None)\n            finally:\n                with self._lock:\n                    self._portal_cm = None\n                    del self._portal", ["R15-g"])
